@@ -129,12 +129,14 @@ func checkC16(c *Ctx) {
 	}
 	// RoundRobin uses it with the configured replica count
 	if gl := p.Method("protocol/leaderrotation", "RoundRobin", "GetLeader"); gl != nil {
-		k := NewKeyer(p, gl)
+		rfl := NewFlow(p, gl)
 		ok := false
 		for _, r := range returnsOf(gl) {
-			kk := k.Key(r.Results[0])
-			if strings.HasPrefix(kk, "hs/protocol/leaderrotation.ChooseRoundRobin(p1, (*hs/core.RuntimeConfig).ReplicaCount(") {
-				ok = true
+			// (directly, or through a private helper of the package that takes the configuration)
+			for _, kk := range []string{rfl.K.Key(r.Results[0]), expandedKey(rfl, r.Results[0], r)} {
+				if strings.HasPrefix(kk, "hs/protocol/leaderrotation.ChooseRoundRobin(p1, (*hs/core.RuntimeConfig).ReplicaCount(") {
+					ok = true
+				}
 			}
 		}
 		c.Check(ok, "C16.2", "RoundRobin.GetLeader = ChooseRoundRobin(view, ReplicaCount())", p.FuncPos(gl), "uses the configured membership size", "unexpected result expression")
@@ -160,7 +162,8 @@ func c16Carousel(c *Ctx) {
 			continue
 		}
 		k := fl.K.Key(r.Results[0])
-		if strings.HasPrefix(k, "hs/protocol/leaderrotation.ChooseRoundRobin(p1, (*hs/core.RuntimeConfig).ReplicaCount(") {
+		if strings.HasPrefix(k, "hs/protocol/leaderrotation.ChooseRoundRobin(p1, (*hs/core.RuntimeConfig).ReplicaCount(") ||
+			strings.HasPrefix(expandedKey(fl, r.Results[0], r), "hs/protocol/leaderrotation.ChooseRoundRobin(p1, (*hs/core.RuntimeConfig).ReplicaCount(") {
 			continue
 		}
 		u, ok := r.Results[0].(*ssa.UnOp)
